@@ -11,6 +11,9 @@ package pokerface
 // vhRefuseAll: every operation of the alphabet except `allowOp` is refused and leaves the state untouched.
 // allowOp: "" none, "ready", "next".
 func vhRefuseAll(g *game, n int, allowOp string, tag string) {
+	if !vWants("C04.") && !vWants("C06.") {
+		return
+	}
 	gs := g.gs
 	before := vCloneState(gs)
 	x := vInt64("amount.refused")
